@@ -17,6 +17,8 @@ pub mod c13;
 pub mod c14;
 pub mod c15;
 pub mod c16;
+pub mod c17;
+pub mod c18;
 
 pub struct Entry {
     pub id: &'static str,
@@ -41,4 +43,6 @@ pub static REGISTRY: &[Entry] = &[
     Entry { id: "C14", run: c14::run_check, replay: c14::replay },
     Entry { id: "C15", run: c15::run_check, replay: c15::replay },
     Entry { id: "C16", run: c16::run_check, replay: c16::replay },
+    Entry { id: "C17", run: c17::run_check, replay: c17::replay },
+    Entry { id: "C18", run: c18::run_check, replay: c18::replay },
 ];
